@@ -139,3 +139,43 @@ CHECKS["C11"] = {
     "note": "By-value structs are in C08. Signature family is hand-listed (18), not generated. Flag-abort build for the "
             "family. Trusted: TLC, harness/sig_driver.cpp, sbx_driver.cpp, tree_driver.cpp, vm backend, g++ 12.",
 }
+
+CHECKS["C07"] = {
+    "technique": "TLA+ Contract (Mem.StoreAllowed / LoadAllowed: footprint + two's-complement little-endian encoding over "
+                 "exact wide integers) evaluated by TLC on whole-region byte diffs recorded from the real accessors under two "
+                 "foreign ABIs",
+    "text": "For 17 primitive types plus const-qualified pointees, every alignment, first/interior/last-byte positions (the "
+            "region ends at a guard page), boundary and random values and four surrounding byte patterns, each store path "
+            "(deref of plain/tainted/tainted_volatile values, index, array element) is recorded as a diff of the whole "
+            "region and each load path (to tainted, deref, index, copy_and_verify on a pointer, copy_and_verify_range "
+            "first/last element) as the value obtained under two different surroundings; TLC checks that changed bytes are "
+            "exactly the guest footprint, that they encode exactly the value, and that loads decode exactly those bytes.",
+    "note": "Values are sampled (boundaries + random), not exhaustive. Struct fields are C08's. Trusted: TLC, "
+            "harness/mem_driver.cpp (its own table of guest types per ABI), vm backend, g++ 12.",
+}
+CHECKS["C04"] = {
+    "technique": "TLA+ Contracts Mem.PtrLoadAllowed/PtrStoreAllowed and SbxContract (PtrRT over registry histories): TLC "
+                 "enumerates all create/destroy orders of three sandboxes; exhaustive offset and representation sweeps through "
+                 "every pointer-carrying position on mask- and finder-based backends; TLC validation",
+    "text": "Every offset of the 4 KiB region (and null) is stored through cell, array element, struct field and whole-struct "
+            "copy and the representation written must be the offset (0 for null); every representation below 2^16 (2^20) "
+            "plus boundary/random ones is read back through 12 positions with three live sandboxes and must yield null for "
+            "0 and the same offset inside the own sandbox otherwise; both translation paths (sandbox context, example "
+            "address via mask or via the live-sandbox list) and two ABIs; TLC enumerates every create/destroy order of three "
+            "sandboxes and pointer round trips are replayed in every live sandbox of every registry state.",
+    "note": "4 GiB geometry is not instantiated (representations above the region size are reduced by the backend). Trusted: "
+            "TLC, harness/mem_driver.cpp, sbx_driver.cpp, vm backend, g++ 12.",
+}
+CHECKS["C03"] = {
+    "technique": "TLA+ Contract (Mem.NeverOut / PtrLoadAllowed) evaluated by TLC on representation sweeps through every "
+                 "pointer position and on a depth-bounded exhaustive DFS over chains of pointer-producing operations",
+    "text": "Guest representations (all below 2^16/2^20, boundaries to 2^32-1, other sandboxes' base bits, random) are placed "
+            "in every position a pointer can occupy and the tainted pointer obtained must be null or inside the sandbox it "
+            "came from; all chains up to depth 3 (4) over 16 pointer-producing operations (in-range, out-of-range and "
+            "address-space-wrapping arithmetic, indexing, casts through wider pointees, opaque round trip, reload through "
+            "memory, memset return) from null/first/last/interior seeds, allocation incl. a misbehaving allocator, "
+            "app_pointer::to_tainted and the checked raw-pointer entry points for every address class are executed and "
+            "every result judged by TLC.",
+    "note": "Chain depth and operand sets are bounded; function pointers excluded by the property. Trusted: TLC, "
+            "harness/mem_driver.cpp, vm backend, g++ 12.",
+}
